@@ -342,6 +342,10 @@ func (b *EvaluationKeys) ReadFrom(r io.Reader) (n int64, err error) {
 			}
 
 			n += inc
+
+		} else {
+			// The encoded bundle has no key set: the one of the receiver is not kept.
+			b.MemEvaluationKeySet = nil
 		}
 
 		return n, nil
